@@ -7,6 +7,7 @@ import (
 	"fmt"
 	"os"
 	"regexp"
+	"strings"
 	"time"
 
 	"cuelabs.dev/go/oci/ociregistry"
@@ -281,6 +282,14 @@ func (s *regSys) Apply(op Op, check bool) (tainted bool) {
 	pred := s.model.Predict(s.u, op)
 	var out Outcome
 	if s.r.Guard(sub, fpBase, s.caseOf(&op), func() { out = s.exec(op) }) {
+		return true
+	}
+	if op.K == "Start" && strings.HasPrefix(out.Err, "new upload reports size") {
+		// a registry may refuse an upload ID it never issued, but a session it does hand out for an ID
+		// that is new to this repository is a new session
+		s.r.Violate(sub, fpBase+"/new-session-not-empty", s.caseOf(&op), "a session started under an ID never used in this repository is empty", out.Err)
+		s.model.Advance(s.u, op, false)
+		s.hist = append(s.hist, op)
 		return true
 	}
 	if s.noOracle {
